@@ -440,9 +440,24 @@ theorem run_dateTok (st : St) (hq : Quiet st) (hap : st.ap = false) (s : List Ch
     have hq' : Quiet { st with ap := true, prev := a } := ⟨hq.esc, hq.quo, hq.brk, hq.hms⟩
     exact run_cons_ret _ (step_pm { st with ap := true, prev := a } hq' rfl x hx)
 
+theorem isPlain_of_nonAscii (c : Char) (h : 128 ≤ c.toNat) : isPlain c = true := by
+  have ne : ∀ k : Char, k.toNat < 128 → (c == k) = false := by
+    intro k hk
+    rw [beq_eq_false_iff_ne]
+    intro e; subst e; omega
+  simp only [isPlain, isEscChar, isAChar, isDateChar]
+  rw [ne '"' (by decide), ne ';' (by decide), ne '[' (by decide), ne ']' (by decide), ne '_' (by decide),
+      ne '\\' (by decide), ne 'a' (by decide), ne 'A' (by decide), ne 'd' (by decide), ne 'm' (by decide),
+      ne 'h' (by decide), ne 'y' (by decide), ne 's' (by decide), ne 'D' (by decide), ne 'M' (by decide),
+      ne 'H' (by decide), ne 'Y' (by decide), ne 'S' (by decide)]
+  rfl
+
 theorem isPlain_of_isNumChar (c : Char) (h : isNumChar c = true) : isPlain c = true := by
   have hall : ∀ d ∈ numChars, isPlain d = true := by decide
-  exact hall c (by simpa [isNumChar] using h)
+  simp only [isNumChar, Bool.or_eq_true, decide_eq_true_eq] at h
+  rcases h with h | h
+  · exact hall c (by simpa using h)
+  · exact isPlain_of_nonAscii c h
 
 theorem run_plain (st : St) (hq : Quiet st) (hap : st.ap = false) (c : Char) (hc : isPlain c = true) :
     run st [c] = .cont { st with prev := c } := by
